@@ -1,21 +1,20 @@
 package main
 
-// The fork-join idiom, inside the sequential executor (DESIGN.md §2.6): `go f()` registers a task; tasks run to
-// completion, one at a time, when the spawner blocks on a channel receive; which pending task runs next is a fork
-// (so every arrival order of the forwarded results is explored, each with symbolic data); a channel is a FIFO; a
-// channel with a harness handler (verifChanHandler) hands every sent value to the handler synchronously — that is how
-// the harness plays the worker pool. sync.WaitGroup is a concrete counter; a task that starts with WaitGroup.Wait is
-// runnable only when the counter is zero. Anything outside this idiom (a task blocking on an empty channel, select,
-// a receive with nobody left to run) is reported as unsupported/deadlock, never silently mis-modelled.
+// The fork-join idiom, inside the sequential executor (DESIGN.md §2.6), on top of the channel objects of
+// intr_chan.go: `go f()` registers a task (unless the harness switched to counting with verifGoReset); tasks run to
+// completion, one at a time, when the spawner blocks on a receive from an empty open channel; which pending task
+// runs next is a fork (so every arrival order of the forwarded results is explored, each with symbolic data); a
+// channel with a harness handler (verifChanHandler) hands every sent value to the handler synchronously — that is
+// how the harness plays the worker pool; a send on an unbuffered channel is a hand-off to the (future) receiver.
+// sync.WaitGroup is a concrete counter; a task that starts with WaitGroup.Wait is runnable only when every counter
+// is zero. Anything outside this idiom (a task blocking on an empty channel, select, a receive with nobody left to
+// run) is reported as unsupported/deadlock, never silently mis-modelled.
 
 import (
 	"fmt"
-	"go/types"
 
 	"golang.org/x/tools/go/ssa"
 )
-
-type ChanVal struct{ Obj int }
 
 type task struct {
 	fn       *ssa.Function
@@ -24,33 +23,8 @@ type task struct {
 	waitsOn  bool // first thing it does is WaitGroup.Wait
 }
 
-type chanObj struct {
-	buf     []Value
-	cap     int
-	closed  bool
-	handler Value
-}
-
-func (st *State) chanOf(v Value) *chanObj {
-	cv, ok := v.(ChanVal)
-	if !ok || cv.Obj == 0 {
-		unsupported("operation on nil or opaque channel (%T)", v)
-	}
-	return st.chans[cv.Obj]
-}
-
-func (st *State) setChan(v Value, c *chanObj) {
-	st.chans[v.(ChanVal).Obj] = c
-}
-
-func (e *Engine) makeChan(st *State, size int) Value {
-	id := st.alloc(OpaqueVal{Tag: "chan"})
-	if st.chans == nil {
-		st.chans = map[int]*chanObj{}
-	}
-	st.chans[id] = &chanObj{cap: size}
-	return ChanVal{Obj: id}
-}
+// kept for State's field type; channel state itself lives in heap objects (intr_chan.go)
+type chanObj struct{}
 
 func startsWithWait(fn *ssa.Function) bool {
 	for _, in := range fn.Blocks[0].Instrs {
@@ -80,23 +54,28 @@ func (e *Engine) goStmt(st *State, fr *Frame, in *ssa.Go) {
 	e.Stubs["go statement (fork-join task)"]++
 }
 
-// send: FIFO append, or a synchronous call of the channel's handler
+// sendStmt: a synchronous call of the channel's handler, a hand-off on an unbuffered channel, or a FIFO append
 func (e *Engine) sendStmt(st *State, fr *Frame, in *ssa.Send) []*State {
-	c := st.chanOf(e.val(fr, in.Chan))
+	ch := e.val(fr, in.Chan)
 	v := e.val(fr, in.X)
-	if c.closed {
-		e.fail(st, "panic", "send on closed channel")
-		return nil
+	if p, ok := ch.(PtrVal); ok && p.Obj != 0 {
+		if h, ok := st.handlers[p.Obj]; ok {
+			hf := h.(FuncVal)
+			e.Stubs["channel handler call"]++
+			return e.runFn(st, hf.Fn, hf.Bindings, []Value{v}, nil, true)
+		}
+		_, o, _ := e.chanObjOf(st, ch, "send")
+		if capT := asTerm(o.Fields[1]); capT.IsConst() && capT.Val == 0 && len(o.Fields[0].(TupleVal).Vals) == 0 && asTerm(o.Fields[2]).IsFalse() && (len(st.tasks) > 0 || st.inTask > 0 || len(st.handlers) > 0) {
+			// rendezvous inside the fork-join idiom: the value waits for its receiver
+			e.store(st, p, StructVal{Fields: []Value{TupleVal{Vals: []Value{v}}, o.Fields[1], o.Fields[2]}})
+			fr.ip++
+			return nil
+		}
 	}
-	if c.handler != nil {
-		h := c.handler.(FuncVal)
-		e.Stubs["channel handler call"]++
-		return e.runFn(st, h.Fn, h.Bindings, []Value{v}, nil, true)
+	e.chanSend(st, ch, v)
+	if !st.dead {
+		fr.ip++
 	}
-	nc := *c
-	nc.buf = append(append([]Value(nil), c.buf...), v)
-	st.setChan(e.val(fr, in.Chan), &nc)
-	fr.ip++
 	return nil
 }
 
@@ -106,31 +85,19 @@ func (e *Engine) wgCount(st *State, p Value) (string, int) {
 	return key, st.wgs[key]
 }
 
-// recv: pops the FIFO; on an empty open channel the current activity blocks and a pending task runs
+// recvOp: on an empty open channel the current activity blocks and a pending task runs; otherwise intr_chan.go
 func (e *Engine) recvOp(st *State, fr *Frame, in *ssa.UnOp) []*State {
 	chv := e.val(fr, in.X)
-	c := st.chanOf(chv)
-	elemT := in.X.Type().Underlying().(*types.Chan).Elem()
-	set := func(s *State, v Value, ok bool) {
-		if in.CommaOk {
-			s.top().regs[in] = TupleVal{Vals: []Value{v, ConstBool(ok)}}
-		} else {
-			s.top().regs[in] = v
+	_, o, _ := e.chanObjOf(st, chv, "receive")
+	empty := len(o.Fields[0].(TupleVal).Vals) == 0
+	open := !asTerm(o.Fields[2]).IsTrue()
+	if !(empty && open && len(st.tasks) > 0) {
+		fr.regs[in] = e.chanRecv(st, chv, in.CommaOk, in.Type())
+		if !st.dead {
+			fr.ip++
 		}
-		s.top().ip++
-	}
-	if len(c.buf) > 0 {
-		nc := *c
-		nc.buf = append([]Value(nil), c.buf[1:]...)
-		st.setChan(chv, &nc)
-		set(st, c.buf[0], true)
 		return nil
 	}
-	if c.closed {
-		set(st, zeroValue(elemT), false)
-		return nil
-	}
-	// blocked: run one runnable pending task (fork over which one), then retry this receive
 	if st.inTask > 0 {
 		unsupported("a task blocks on an empty channel (outside the fork-join idiom)")
 	}
@@ -183,9 +150,6 @@ func registerConc(e *Engine) {
 		if !ok {
 			unsupported("WaitGroup.Add with a symbolic delta")
 		}
-		if st.wgs == nil {
-			st.wgs = map[string]int{}
-		}
 		nw := map[string]int{}
 		for k, v := range st.wgs {
 			nw[k] = v
@@ -212,9 +176,10 @@ func registerConc(e *Engine) {
 	}
 	e.intr["(*sync.WaitGroup).Wait"] = func(e *Engine, st *State, cc *ssa.CallCommon, a []Value) Value {
 		_, n := e.wgCount(st, a[0])
-		if n != 0 {
-			unsupported("WaitGroup.Wait with a non-zero counter outside the fork-join idiom")
+		if n != 0 && (len(st.tasks) > 0 || st.inTask > 0) {
+			unsupported("WaitGroup.Wait with a non-zero counter inside the fork-join idiom")
 		}
+		// sequential harness without tasks: the goroutines it waits for were only counted (verifGoReset), not run
 		return nil
 	}
 	e.intr["context.WithCancel"] = func(e *Engine, st *State, cc *ssa.CallCommon, a []Value) Value {
